@@ -150,6 +150,14 @@ def fact_from_cond(lin, node, positive=True):
     if op is None:
         return []
     l, r = lin.of(n["l"]), lin.of(n["r"])
+    if op == "!=":
+        # unsigned x != 0  ->  x >= 1   (normal form of `x > 0` / `!v.is_empty()`)
+        from .normal import UNSIGNED
+        if r == ({}, 0) and (n["l"].get("ty", "").lstrip("&") in UNSIGNED or n["l"].get("name") == "len"):
+            return [sub(l, ({}, 1))]
+        if l == ({}, 0) and (n["r"].get("ty", "").lstrip("&") in UNSIGNED or n["r"].get("name") == "len"):
+            return [sub(r, ({}, 1))]
+        return []
     if op == "<=":
         return [sub(r, l)]
     if op == "<":
